@@ -21,6 +21,7 @@ import (
 	"runtime"
 	"sort"
 	"strconv"
+	"strings"
 	"sync"
 	"time"
 
@@ -70,16 +71,16 @@ type driver struct {
 
 // record is what one scenario contributed.
 type record struct {
-	idx      int
-	sc       *proto.Scenario
-	res      *proto.Result
-	refs     [][]*proto.OpResult
-	findings []finding
-	crashed  string
-	err      error
-	twinOK   bool
-	twinRun  bool
-	twinBad  string
+	idx         int
+	sc          *proto.Scenario
+	res         *proto.Result
+	refs        [][]*proto.OpResult
+	findings    []finding
+	crashed     string
+	err         error
+	twinOK      bool
+	twinRun     bool
+	twinBad     string
 	twinLogDiff bool
 }
 
@@ -296,6 +297,28 @@ func main() {
 		os.Exit(d.check(n))
 	case "replay":
 		os.Exit(d.replay(*file))
+	case "corpus":
+		// debugging aid: how do the composed programs fare in the front end?
+		d.corpus, err = loadCorpus(*corpusDir, composerPrograms(d.seed), d.x)
+		if err != nil {
+			fail2("%v", err)
+		}
+		ok, bad := 0, 0
+		for _, p := range d.corpus.progs {
+			if !strings.HasPrefix(p.Name, "composed-") {
+				continue
+			}
+			if p.info.LowerErr != "" {
+				bad++
+				fmt.Printf("%s: %s\n", p.Name, firstLines(p.info.LowerErr, 2))
+				if *count > 0 {
+					fmt.Println(p.WGSL)
+				}
+			} else {
+				ok++
+			}
+		}
+		fmt.Printf("composed programs: %d lower, %d rejected; with overrides %d\n", ok, bad, len(d.corpus.withOv))
 	case "gen":
 		// debugging aid: print scenario number -n as JSON (step limits unset)
 		d.corpus, err = loadCorpus(*corpusDir, composerPrograms(d.seed), d.x)
